@@ -1,17 +1,63 @@
 """C10 configuration for bin/check."""
+import json
+import os
+import shutil
+import subprocess
+import sys
+
 from propdefs.common import STD_ASSUME
+
+sys.path.insert(0, os.path.dirname(os.path.dirname(os.path.abspath(__file__))))
+import buildlib  # noqa: E402
+
+
+def pre(tier, seed):
+    """Thorough tier only: the whole guard catalogue once more under valgrind memcheck (-O2 build), which sees use of uninitialised values
+    that ASan cannot.  A memcheck error makes the child exit with status 97, which the process-outcome oracle reports like any other wrong outcome."""
+    if tier != "thorough":
+        return []
+    if shutil.which("valgrind") is None:
+        return [{"t": "fatal", "reason": "valgrind not found"}]
+    exe = buildlib.ensure_driver("rel", "c10_guards")
+    cmd = ["valgrind", "--quiet", "--error-exitcode=97", exe, "--seed", str(seed), "--tier", "quick", "--shard", "0/1", "--scale", "1", "--only", "catalogue"]
+    try:
+        r = subprocess.run(cmd, stdout=subprocess.PIPE, stderr=subprocess.PIPE, timeout=3 * 3600)
+    except subprocess.TimeoutExpired:
+        return [{"t": "inconclusive", "reason": "memcheck run timed out"}]
+    recs = []
+    for line in r.stdout.decode("utf-8", "replace").splitlines():
+        if not line.startswith("{"):
+            continue
+        try:
+            rec = json.loads(line)
+        except Exception:
+            continue
+        if rec.get("t") == "clause":
+            rec["id"] = "memcheck:" + rec["id"]
+        elif rec.get("t") == "viol":
+            rec["key"] = "memcheck:" + rec["key"]
+            rec["clause"] = "memcheck:" + rec.get("clause", "")
+        elif rec.get("t") in ("ticks", "outcomes", "sample"):
+            continue
+        recs.append(rec)
+    if r.returncode != 0 or not any(x.get("t") == "summary" for x in recs):
+        recs.append({"t": "fatal", "reason": "memcheck run failed (rc %d): %s" % (r.returncode, r.stderr.decode("utf-8", "replace")[-400:])})
+    return recs
+
 
 PROP = {
     "driver": "c10_guards",
+    "pre": pre,
     "flavours": [("asan", 1.0), ("rel", 1.0)],
     "shards": {"quick": 16, "thorough": 16},
     "rule": "catalogue of guarded entry points (one isolated child per request, each request is one side of one guard: "
             "index size-1/size/size+1/UINT_MAX, shapes equal/transposed/off-by-one, x at/inside/outside the 1% edge tolerance, "
             "tables of length 0..3, method names +- one character, parameters at/beyond their range, list lengths) plus random "
             "requests around 13 parametrised guard families (incl. guard-violating parameters crossed with random other arguments and Factorial after random valid call histories); every request is non-trivial; distinct = distinct request text",
-    "floors": {"quick": {"cases": 1500, "distinct_nontrivial": 700}, "thorough": {"cases": 30000, "distinct_nontrivial": 5000}},
+    "floors": {"quick": {"cases": 1500, "distinct_nontrivial": 700},
+               "thorough": {"cases": 30000, "distinct_nontrivial": 5000, "clauses": {"memcheck:accepted-side-returns": 300, "memcheck:rejected-side-exits-with-diagnostic": 500}}},
     "exhaustive": {"quick": ["the guard catalogue (every entry run in both flavours)"], "thorough": ["the guard catalogue (every entry run in both flavours)"]},
-    "technique": "runtime monitoring: one forked child per request under gcc ASan+UBSan, process-outcome oracle (exit status, diagnostic bytes, sanitizer reports)",
+    "technique": "runtime monitoring: one forked child per request under gcc ASan+UBSan, process-outcome oracle (exit status, diagnostic bytes, sanitizer reports); thorough tier: the catalogue again under valgrind memcheck",
     "level_text": "Every catalogued guard (both sides) and thousands of random requests around 13 guard families were executed against the real "
                   "library in an ASan+UBSan build and an -O2 build; each outcome (returned / exit(EXIT_FAILURE)+diagnostic / other exit / signal / sanitizer report) "
                   "was classified by the parent. Exploration: it shows the property on the requests run, not on all inputs.",
